@@ -265,6 +265,39 @@ fn main() {
             rep.case(idx, json!({"input": input, "output": out.iter().map(|row| row.iter().map(js_value).collect::<Vec<_>>()).collect::<Vec<_>>()}));
         }
     }
+    // K-C21-zerokey: 0.0 = -0.0, but `Hash for Value` hashes the bit pattern while `==` is IEEE
+    // equality, so the HashMap of execute_aggregate separates the two keys unless their hash
+    // tags collide; repeated executions of one query on one input give different row counts
+    {
+        let mk = |k: f64, v: i64| {
+            let mut m = BTreeMap::new();
+            m.insert("k".to_string(), V::Float(k));
+            m.insert("v".to_string(), V::Int(v));
+            V::Map(m)
+        };
+        let rows_param = V::List(vec![mk(0.0, 1), mk(-0.0, 2), mk(0.0, 4)]);
+        let (mut one, mut two, mut other) = (0u64, 0u64, 0u64);
+        let reps = if a.tier == "thorough" { 20000 } else { 3000 };
+        for _ in 0..reps {
+            match eng.rows("UNWIND $rows AS r WITH r.k AS k, r.v AS v RETURN k, count(*), sum(v)", &[("rows", rows_param.clone())]) {
+                Ok(o) if o.len() == 1 => one += 1,
+                Ok(o) if o.len() == 2 => two += 1,
+                _ => other += 1,
+            }
+        }
+        evals += reps;
+        hist.insert("zerokey:one-row".into(), one);
+        hist.insert("zerokey:two-rows".into(), two);
+        if other > 0 {
+            fails += 1;
+            rep.fail(0, None, "grouping by the keys 0.0 / -0.0 failed or returned an unexpected number of rows", json!({"other": other}));
+        } else if two > 0 {
+            fails += 1;
+            rep.fail(0, Some("K-C21-zerokey"),
+                &format!("grouping keys 0.0 and -0.0 (equal under =): {} of {} executions returned two rows, {} one row", two, reps, one),
+                json!({"query": "UNWIND $rows AS r WITH r.k AS k, r.v AS v RETURN k, count(*), sum(v)", "rows": [[0.0, 1], ["-0.0", 2], [0.0, 4]], "two_rows": two, "one_row": one}));
+        }
+    }
     let _ = NAGG;
     cw.flush();
     rep.stats(json!({
